@@ -479,9 +479,209 @@ def check_thread_scenario(sc, acc, budget, root_prefix=()):
     acc.sample({"scenario": sc, "schedules_at_bound": tot_s, "distinct_outcome_vectors": len(outcomes)}, cap=2)
 
 
+# ---------------------------------------------------------------------------------------------------------------
+# finalisation elsewhere: a suspended checked coroutine (started in a context of its own) is closed / thrown into / resumed
+# at every point of ANOTHER checked call - of the same instance, of another instance, of a function - in every context
+# relation; the other call's verdict and the later calls must not depend on it
+
+FIN_SRC = """\
+import contextvars
+import icontract
+LOG = []
+T = {}
+HOOK = {}
+class Boom(Exception): pass
+class Tick:
+    def __await__(self):
+        yield self
+def lab(o):
+    return getattr(o, "name", "?")
+def inv(self):
+    LOG.append(("inv", lab(self)))
+    return T.get("inv", True)
+async def apre(self):
+    if "pre" in HOOK.get("susp", ()):
+        await Tick()
+    LOG.append(("apre", lab(self)))
+    return True
+def fpre():
+    LOG.append(("fpre",))
+    h = HOOK.get("f.pre")
+    if h:
+        h()
+    return True
+@icontract.invariant(inv)
+class K:
+    def __init__(self, name):
+        self.name = name
+    @icontract.require(apre)
+    async def am(self):
+        LOG.append(("am.begin", lab(self)))
+        if "body" in HOOK.get("susp", ()):
+            await Tick()
+        LOG.append(("am.end", lab(self)))
+        return 1
+    def m2(self, other):
+        LOG.append(("m2.begin", lab(self)))
+        h = HOOK.get("m2.body")
+        if h:
+            h()
+        self.m3()
+        other.m3()
+        LOG.append(("m2.end", lab(self)))
+    def m3(self):
+        LOG.append(("m3", lab(self)))
+@icontract.require(fpre)
+def f(o):
+    LOG.append(("f.begin",))
+    o.m3()
+    LOG.append(("f.end",))
+"""
+
+
+def check_foreign_finalisation(acc):
+    import contextvars
+    ns = core.fresh_ctx_run(core.load_source, FIN_SRC, "c12fin")
+    try:
+        K, LOG, HOOK = ns["K"], ns["LOG"], ns["HOOK"]
+        for susp in ("body", "pre"):
+            for how in ("close", "throw", "resume", "drop"):
+                for where in ("m2.body:same", "m2.body:other", "f.pre", "top"):
+                    for fin_ctx in ("current", "fresh", "own"):
+                        for victim_ctx in ("main", "copied_before", "copied_after"):
+                            def go():
+                                HOOK.clear()
+                                HOOK["susp"] = (susp,)
+                                del LOG[:]
+                                a, b = K("a"), K("b")
+                                ctx_before = contextvars.copy_context()
+                                own = contextvars.copy_context()
+                                box = {"c": a.am()}
+                                own.run(box["c"].send, None)  # now suspended in its precondition or its body, marks set in ``own``
+                                ctx_after = contextvars.copy_context()
+                                start = len(LOG)
+
+                                def finalise():
+                                    c_ref = [box["c"]]
+
+                                    def act():
+                                        try:
+                                            if how == "close":
+                                                c_ref[0].close()
+                                            elif how == "throw":
+                                                c_ref[0].throw(ns["Boom"]("thrown"))
+                                            elif how == "resume":
+                                                c_ref[0].send(None)
+                                            else:
+                                                # the last reference goes away: the garbage collector closes the coroutine right here
+                                                box["c"] = None
+                                                del c_ref[:]
+                                                import gc
+                                                gc.collect()
+                                        except (ns["Boom"], StopIteration):
+                                            pass
+                                    LOG.append(("fin.begin",))
+                                    if fin_ctx == "current":
+                                        act()
+                                    elif fin_ctx == "fresh":
+                                        contextvars.Context().run(act)
+                                    else:
+                                        own.run(act)
+                                    LOG.append(("fin.end",))
+
+                                def victim():
+                                    if where == "m2.body:same":
+                                        HOOK["m2.body"] = finalise
+                                        a.m2(b)
+                                    elif where == "m2.body:other":
+                                        HOOK["m2.body"] = finalise
+                                        b.m2(a)
+                                    elif where == "f.pre":
+                                        HOOK["f.pre"] = finalise
+                                        ns["f"](a)
+                                    else:
+                                        finalise()
+                                    HOOK.pop("m2.body", None)
+                                    HOOK.pop("f.pre", None)
+                                    # afterwards everything is checked as usual in this context ...
+                                    LOG.append(("later",))
+                                    a.m3()
+                                    b.m2(a)
+                                vctx = {"main": None, "copied_before": ctx_before, "copied_after": ctx_after}[victim_ctx]
+                                if vctx is None:
+                                    victim()
+                                else:
+                                    vctx.run(victim)
+                                # ... and in the coroutine's own context
+                                LOG.append(("later_own",))
+                                own.run(a.m3)
+                                return list(LOG[start:])
+                            try:
+                                log = core.fresh_ctx_run(go)
+                                err = None
+                            except BaseException as e:  # noqa
+                                log, err = [], e
+                            # reference: what the victim and the later calls log when no coroutine exists at all (the events of the
+                            # finalisation itself - between fin.begin and fin.end - are cut out on both sides)
+                            def strip(lg):
+                                out, depth = [], 0
+                                for ev in lg:
+                                    if ev == ("fin.begin",):
+                                        depth += 1
+                                    elif ev == ("fin.end",):
+                                        depth -= 1
+                                    elif depth == 0:
+                                        out.append(ev)
+                                return out
+                            I = lambda n: ("inv", n)
+                            m3 = lambda n, checked: ([I(n), ("m3", n), I(n)] if checked else [("m3", n)])
+                            m2 = lambda x, y: [I(x), ("m2.begin", x)] + m3(x, False) + m3(y, True) + [("m2.end", x), I(x)]
+                            # a copied_after context carries the mark of the suspended coroutine for ``a`` while the coroutine is alive;
+                            # calls on ``a`` made there before the finalisation are legitimately nested - we only judge such scenarios
+                            # after the finalisation ("later" part) unless the finalisation comes first
+                            if where == "m2.body:same":
+                                first = m2("a", "b")
+                            elif where == "m2.body:other":
+                                first = m2("b", "a")
+                            elif where == "f.pre":
+                                first = [("fpre",), ("f.begin",)] + m3("a", True) + [("f.end",)]
+                            else:
+                                first = []
+                            later = [("later",)] + m3("a", True) + m2("b", "a") + [("later_own",)] + m3("a", True)
+                            got = strip(log)
+                            feats = {"part": "finalisation_elsewhere", "susp": susp, "how": how, "where": where, "fin_ctx": fin_ctx, "victim_ctx": victim_ctx}
+                            acc.case(("fin", susp, how, where, fin_ctx, victim_ctx), True, len(log), "err" if err else "ok")
+                            marked_before = victim_ctx == "copied_after" and where != "top"
+                            want = first + later
+                            bad = None
+                            if err is not None:
+                                bad = ("finalisation_scenario_raised", repr(err))
+                            elif how == "resume" and fin_ctx != "own":
+                                continue  # resuming a coroutine in another context than its own moves its marks: outside the property
+                            elif marked_before:
+                                # judge the part after ("later",) only
+                                i = got.index(("later",)) if ("later",) in got else 0
+                                if got[i:] != later:
+                                    bad = ("checks_skipped_under_concurrency" if len(got[i:]) < len(later) else "verdict_depends_on_concurrent_call",
+                                           "after the finalisation: expected {} got {}".format(later, got[i:]))
+                            elif got != want:
+                                bad = ("checks_skipped_under_concurrency" if len(got) < len(want) else "verdict_depends_on_concurrent_call",
+                                       "expected {} got {}".format(want, got))
+                            if bad:
+                                acc.violation(core.Violation(PROP, bad[0], feats, "coroutine a.am() suspended in its {}, finalised by {} in the {} context at {} "
+                                                             "(victim runs in {}): {}".format(susp, how, fin_ctx, where, victim_ctx, bad[1]),
+                                                             spec={"finalisation": feats}, script=FIN_SRC))
+        acc.sample({"part": "finalisation_elsewhere"}, cap=1)
+    finally:
+        core.unload_source(ns)
+
+
 def work(chunk):
     acc = core.Acc()
     for sc, budget in chunk:
+        if sc.get("engine") == "finalisation":
+            check_foreign_finalisation(acc)
+            continue
         if sc["engine"] == "tasks":
             check_task_scenario(sc, acc, budget)
         else:
@@ -494,6 +694,7 @@ def run(tier, t0):
     items = [(s, budget) for s in task_scenarios(tier)] + [(s, budget) for s in thread_scenarios(tier)]
     # heavy items first so that the pool balances
     items.sort(key=lambda it: (it[0]["engine"] == "threads" and it[0]["gran"] != "G1", len(it[0].get("susp", []))), reverse=True)
+    items.append(({"engine": "finalisation"}, 0))
     tot = core.merge(core.pmap(work, items))
     capped = tot["extra"].get("capped_scenarios", 0)
     return core.finish(
@@ -504,7 +705,11 @@ def run(tier, t0):
              "(threads) call sets x 3 context modes (empty, copy_context().run copied after / before the parent's first checked "
              "call) with iterative preemption bounding 0..2 at G1 = entries into user code, G2 = + every line of the wrapper "
              "frames, G3 = every line of any _checkers.py frame (bound 1). states = nodes of the schedule trees, transitions = "
-             "scheduling steps; non-trivial = every complete schedule".format(len(TASK_CALLS) + (len(TASK_CALLS3) if tier == "thorough" else 0)),
+             "scheduling steps; (finalisation elsewhere) a checked coroutine suspended in its async precondition / its body, started in a context of its own, is "
+             "closed / thrown into / resumed / dropped (gc) at 4 places (inside the body of another checked method of the same instance, of another "
+             "instance, inside a function's precondition, at top level) x finalising context (current, fresh, the coroutine's own) x context of the "
+             "victim call (main, copied before / after the coroutine started): the victim's events and all later calls equal those without the "
+             "coroutine; non-trivial = every complete schedule".format(len(TASK_CALLS) + (len(TASK_CALLS3) if tier == "thorough" else 0)),
         assumptions=["CPython scheduling explored at line granularity under the GIL; no weaker memory model exists in CPython",
                      "invariants depend only on a field no body modifies"],
         bounds={"scenarios": len(items), "max_participants": 2 if tier == "quick" else 3, "preemption_bound": 2,
@@ -516,8 +721,10 @@ def run(tier, t0):
 def replay(path):
     data = json.load(open(path))["spec"]
     acc = core.Acc()
-    sc = data["scenario"]
-    if sc["engine"] == "tasks":
+    sc = data.get("scenario") or {"engine": "finalisation"}
+    if sc["engine"] == "finalisation":
+        check_foreign_finalisation(acc)
+    elif sc["engine"] == "tasks":
         check_task_scenario(sc, acc, 400000)
     else:
         check_thread_scenario(sc, acc, 400000)
